@@ -31,15 +31,15 @@ Definition SS : schema := [("S", DCustom (Some cS))].
 (* ---- top-level arguments (full since /repo d163d56): evaluating the generated expression with the argument
         bound to its parameter calls serialize once per non-None occurrence, in order, for every wrapper
         nesting; never for None; never for an omitted argument (UNSET).  Side condition: the serialize
-        function is not itself named like the parameter or like a comprehension variable (_itemN). ---- *)
+        function is not itself named like the parameter (the comprehension variable steps aside since /repo 6bef770). ---- *)
 Theorem C07_serialize_args : forall S ser t v log,
-  (forall f, var_ser S t = Some f -> String.eqb f "x" = false /\ is_item_name f = false) ->
+  (forall f, var_ser S t = Some f -> String.eqb f "x" = false) ->
   occ_ser S t false v = Some log -> arg_log ser S t v = Some log.
 Proof. exact serialize_args. Qed.
 Print Assumptions C07_serialize_args.
 
 Theorem C07_serialize_args_omitted : forall S ser t,
-  (forall f, var_ser S t = Some f -> String.eqb f "x" = false /\ is_item_name f = false) ->
+  (forall f, var_ser S t = Some f -> String.eqb f "x" = false) ->
   is_nonnull t = false -> arg_log ser S t PUnset = Some [].
 Proof. exact serialize_args_omitted. Qed.
 Print Assumptions C07_serialize_args_omitted.
